@@ -30,7 +30,7 @@ func (c14) Info(t core.Tier) core.Info {
 	}
 }
 
-func (c14) NumCases(t core.Tier) int { return tierN(t, 1500, 80000) }
+func (c14) NumCases(t core.Tier) int { return tierN(t, 12000, 300000) }
 
 func (c14) RunCase(c *core.Ctx) {
 	flat := c.R.Intn(10) < 6
